@@ -836,7 +836,7 @@ RU_OPS = {
     "lmul": (4, [0, 1], [2, 3], None, "naive"), "lmul_naive": (4, [0, 1], [2, 3], None, "naive"), "laddmul": (5, [0, 1], [2, 3, 4], None, "naive"),
     "div": (4, [0, 1], [2, 3], None, "nz3"), "div_q": (3, [0], [1, 2], None, "nz2"), "div_r": (3, [0], [1, 2], None, "nz2"), "div_q.w": (2, [0], [1], "u64nz", ""),
     "mod_n": (3, [0], [1, 2], None, "nz2"), "mod_nin": (2, [0], [0, 1], None, "nz1"), "gcd": (3, [0], [1, 2], None, ""),
-    "inv_mod": (3, [0], [1, 2], None, "inv"), "exp_mod": (4, [0], [1, 2, 3], None, "exp"),
+    "inv_mod": (3, [0], [1, 2], None, "inv"), "exp_mod": (4, [0], [1, 2, 3], None, "exp"), "bezout_mod": (4, [0, 1], [2, 3], None, "bez"),
     "left_shift": (2, [0], [1], "shift", ""), "right_shift": (2, [0], [1], "shift", ""), "left_shift_1": (2, [0], [1], None, ""), "right_shift_1": (2, [0], [1], None, ""),
     "copy": (2, [0], [1], None, ""),
     "op+=": (2, [0], [0, 1], None, ""), "op-=": (2, [0], [0, 1], None, ""), "op*=": (2, [0], [0, 1], None, ""), "op/=": (2, [0], [0, 1], None, "nz1"),
@@ -844,13 +844,15 @@ RU_OPS = {
     "op<<=": (1, [0], [0], "shift", ""), "op>>=": (1, [0], [0], "shift", ""),
     "op=+": (3, [0], [1, 2], None, ""), "op=-": (3, [0], [1, 2], None, ""), "op=*": (3, [0], [1, 2], None, ""), "op=/": (3, [0], [1, 2], None, "nz2"), "op=%": (3, [0], [1, 2], None, "nz2"),
 }
-RU_NAMES = {"lmul": "hlbc", "lmul_naive": "hlbc", "laddmul": "hlbcd", "div": "qrab", "exp_mod": "rben"}
+RU_NAMES = {"bezout_mod": "xycd", "lmul": "hlbc", "lmul_naive": "hlbc", "laddmul": "hlbcd", "div": "qrab", "exp_mod": "rben"}
 
 
 def ru_valid(op, tag, v, W):
     if tag in ("nz1", "nz2", "nz3") and v[int(tag[-1])] == 0:
         return False
     if tag == "inv" and (v[2] < 2 or math.gcd(v[1], v[2]) != 1):
+        return False
+    if tag == "bez" and (v[2] < 2 or v[3] < 2 or math.gcd(v[2], v[3]) != 1):
         return False
     if tag == "exp" and (v[3] < 3 or v[3] % 2 == 0 or v[2] > 4096):
         return False
@@ -891,6 +893,7 @@ def ru_spec(op, K, v, s):
     if op == "gcd": return {0: math.gcd(v[1], v[2])}
     if op == "inv_mod": return {0: pow(v[1], -1, v[2])}
     if op == "exp_mod": return {0: pow(v[1], v[2], v[3])}
+    if op == "bezout_mod": return {0: pow(v[2], -1, v[3]), 1: pow(v[3], -1, v[2])}
     if op == "left_shift": return {0: (v[1] << s) % W}
     if op == "right_shift": return {0: v[1] >> s}
     if op == "left_shift_1": return {0: (v[1] << 1) % W}
@@ -923,7 +926,7 @@ def gen_ru_cases(rng, exes, quick, cases):
         for op, (n, dests, reads, sk, tag) in sorted(RU_OPS.items()):
             if tag == "naive" and K >= 10:
                 continue       # lmul above the Karatsuba threshold is documented "NOT safe" (rumul.h) for outputs aliasing inputs
-            if K >= 10 and (op in ("exp_mod", "inv_mod", "gcd") or quick and op.startswith("op")):
+            if K >= 10 and (op in ("exp_mod", "inv_mod", "gcd", "bezout_mod") or quick and op.startswith("op")):
                 continue
             for idx in partitions(n, dests):
                 for rep in range(reps if K <= 8 else max(1, reps // 3)):
@@ -962,8 +965,15 @@ POLY_OPS = {
     "add.s": (2, [0], [1], "coef", ""), "sub.s": (2, [0], [1], "coef", ""), "mul.s": (2, [0], [1], "coef", ""), "div.s": (2, [0], [1], "coefnz", ""),
     "axpy.s": (3, [0], [1, 2], "coef", ""), "axmy.s": (3, [0], [1, 2], "coef", ""),
     "axpyin.s": (2, [0], [0, 1], "coef", ""), "maxpyin.s": (2, [0], [0, 1], "coef", ""), "axmyin.s": (2, [0], [0, 1], "coef", ""),
+    "maxpy.s": (3, [0], [1, 2], "coef", ""), "mod.s": (2, [0], [1], "coefnz", ""),
+    "karamul": (3, [0], [1, 2], None, ""), "midmul": (3, [0], [1, 2], None, "mid"), "stdmidmul": (3, [0], [1, 2], None, "mid"),
+    "karamidmul": (3, [0], [1, 2], None, "mid"), "mul.trunc": (3, [0], [1, 2], "trunc", ""),
+    "divmodin": (3, [0, 1], [1, 2], None, "nz2"), "pdivmod": (4, [0, 1], [2, 3], None, "nz3"), "pmod": (3, [0], [1, 2], None, "nz2"),
+    "invmod": (3, [0], [1, 2], None, "nzall"), "invmodunit": (3, [0], [1, 2], None, "nzall"), "invmodpowx": (2, [0], [1], "pdeg", "c0nz"),
+    "power_compose": (2, [0], [1], "pdeg", ""), "ratrecon": (4, [0, 1], [2, 3], "pdeg", "nzall"), "powmod": (3, [0], [1, 2], "pexp", "nz2"),
+    "inv": (2, [0], [1], None, "unit1"), "shift": (2, [0], [1], "pexp", ""),
 }
-POLY_NAMES = {"divmod": "qrab", "gcd5": "duvpq"}
+POLY_NAMES = {"divmod": "qrab", "gcd5": "duvpq", "divmodin": "qrb", "pdivmod": "qrab", "ratrecon": "ndpm", "powmod": "wpu"}
 
 
 def poly_value(rng, p, maxdeg, nz=False):
@@ -1018,7 +1028,29 @@ def gen_field_cases(rng, exes, quick, cases):
                     big = rng.chance(1, 6) and op in ("mul", "mulin", "sqr", "axpy", "div", "mod", "divmod")
                     md = 40 if big else 6
                     vals = class_values(rng, n, dests, reads, idx, lambda j: poly_value(rng, p, md, nz=(tag == "nzall")), lambda j: poly_value(rng, p, 6))
-                    c = Case("fields", "poly", p, op, n, dests, reads, idx, vals, [x] if sk else [], "Poly1Dom<Modular<int32_t>,Dense>::" + op, POLY_NAMES.get(op))
+                    def setpos(k, v):
+                        for j in range(n):
+                            if j in reads and idx[j] == idx[k]:
+                                vals[j] = v
+                    if tag == "mid":
+                        # middle products: size(P) = 2 size(Q) - 1 (the Karatsuba form requires it); a shared object: constants
+                        if idx[1] == idx[2]:
+                            setpos(1, str(rng.range(1, p - 1)))
+                        else:
+                            dq = rng.choice([0, 1, 2, 3, 5])
+                            setpos(2, ",".join(str(rng.range(0, p - 1)) for _ in range(dq)) + ("," if dq else "") + str(rng.range(1, p - 1)))
+                            setpos(1, ",".join(str(rng.range(0, p - 1)) for _ in range(2 * dq)) + ("," if dq else "") + str(rng.range(1, p - 1)))
+                    if tag == "c0nz":
+                        v = vals[1].split(",") if vals[1] != "z" else ["1"]
+                        v[0] = str(rng.range(1, p - 1))
+                        setpos(1, ",".join(v))
+                    if tag == "unit1":
+                        setpos(1, str(rng.range(1, p - 1)))
+                    ex = [x] if sk else []
+                    if sk == "trunc":
+                        v0 = rng.range(0, 3)
+                        ex = [v0, v0 + rng.range(0, 4)]
+                    c = Case("fields", "poly", p, op, n, dests, reads, idx, vals, ex, "Poly1Dom<Modular<int32_t>,Dense>::" + op, POLY_NAMES.get(op))
                     nzp = {"nz1": 1, "nz2": 2, "nz3": 3}.get(tag)
                     if nzp is not None and (c.vals[nzp] == "z" or c.alias_vals()[nzp] == "z"):
                         continue
